@@ -122,6 +122,21 @@ def nmf2 : Handler := fun args impl =>
     | _, _, _ => unmodelled
   | _ => unmodelled
 
-def handlers : List (String × Handler) := [("nmf", nmf), ("regcmp", regcmp), ("nmf2", nmf2)]
+/-- `nmfseq <name> <value>`: a field is built from a caller-owned big integer (and from the caller-owned bytes of its
+    encoding), unrelated fields are built afterwards with arguments of every kind, then the first arguments are read again
+    and the first fields encoded again: the builder leaves its arguments unmodified, and nothing it does later reaches them -/
+def nmfseq : Handler := fun args impl =>
+  match args with
+  | [name, v] =>
+    match v.toNat? with
+    | some a =>
+      let m := match NewMatchField name (Int.ofNat a) [] with
+        | .ok f => (match (marshalField f).map toHex with | some x => s!"kept {x}" | none => "err")
+        | _ => "err"
+      { model := m, oracle := if impl.startsWith "changed" then some s!"{name}: a later, unrelated build reached an earlier argument / field: {impl.take 200}" else none }
+    | none => unmodelled
+  | _ => unmodelled
+
+def handlers : List (String × Handler) := [("nmf", nmf), ("regcmp", regcmp), ("nmf2", nmf2), ("nmfseq", nmfseq)]
 
 end OFV.Driver.C17
